@@ -54,9 +54,9 @@ func (c *Ctx) extCompareSets(fn *ssa.Function) map[ssa.Value][]string {
 
 type scanShape struct {
 	refresh, scan, walkCB, scanCB, rc *ssa.Function
-	scanCall                         ssa.CallInstruction
-	specsMap, devicesMap, errorsMap  *ssa.MakeMap
-	conflicts                        *ssa.MakeMap
+	scanCall                          ssa.CallInstruction
+	specsMap, devicesMap, errorsMap   *ssa.MakeMap
+	conflicts                         *ssa.MakeMap
 }
 
 func mapRoot(c *Ctx, v ssa.Value) *ssa.MakeMap {
@@ -220,8 +220,8 @@ func c01Walk(c *Ctx, s *scanShape) {
 		switch {
 		case strings.HasPrefix(g, "!IsDir("):
 			notDir = true
-		case strings.HasPrefix(g, "call:Ext in {"):
-			ext = g == `call:Ext in {".json",".yaml"}`
+		case strings.HasPrefix(g, "path/filepath.Ext(param:path) in {"):
+			ext = g == `path/filepath.Ext(param:path) in {".json",".yaml"}`
 		case g == "nonnil(param:info)":
 			infoOK = true
 		case g == "nil(param:err)":
@@ -496,10 +496,10 @@ func c01Conflicts(c *Ctx, s *scanShape) {
 
 	loops := ir.Loops(rc)
 	type pathInfo struct {
-		orders                                 map[string]bool
-		retTrue, retFalse                      bool
-		delConflict, setConflict, collectBoth  bool
-		otherEffects                           []string
+		orders                                map[string]bool
+		retTrue, retFalse                     bool
+		delConflict, setConflict, collectBoth bool
+		otherEffects                          []string
 	}
 	var infos []pathInfo
 	complete := ir.EnumPaths(rc, nil, false, func(p ir.BlockPath, end ssa.Instruction) {
